@@ -4,7 +4,7 @@
 From Coq Require Import List Bool Arith QArith Qcanon.
 Import ListNotations.
 Require Import SC.Base.Ord SC.Base.Val SC.Base.Series SC.Base.QcOrd.
-Require Import SC.Model.Repr SC.Model.Ops SC.Model.Masking SC.Model.Sampling SC.Model.Stats SC.Model.Slicing.
+Require Import SC.Model.Repr SC.Model.Ops SC.Model.Masking SC.Model.Sampling SC.Model.Stats SC.Model.Slicing SC.Model.Arrays.
 Open Scope Qc_scope.
 
 Notation ser := (list (Qc * V)).
@@ -52,7 +52,12 @@ Inductive query :=
 | QCov (b : nat) (lo hi : option Qc) (lag : Qc) (lc : lagclip)
 | QCorr (b : nat) (lo hi : option Qc) (lag : Qc) (lc : lagclip)
 | QRolling (l r : Qc) (lo hi : option Qc)
-| QDescribe (lo hi : option Qc) (ps : list Qc).
+| QDescribe (lo hi : option Qc) (ps : list Qc)
+(* collection-level calls on [this register :: others] (Model/Arrays.v); tables and matrices are observed row by row *)
+| QArrSample (others : list nat) (xs : list Qc)
+| QArrLimit (others : list nat) (sd : lside) (xs : list Qc)
+| QArrCov (others : list nat) (lo hi : option Qc)
+| QArrCorr (others : list nat) (lo hi : option Qc).
 
 Inductive stmt :=
 | SNew (r : nat) (i : V) (c : side)
@@ -124,6 +129,9 @@ Definition vir_closed (f : stairsQ) (cl : option ivclosed) : side * bool * bool 
 Definition lims_of (f : stairsQ) (cl : option ivclosed) : bool * bool :=
   let '(_, l, r) := vir_closed f cl in get_lims (closed f) l r.
 
+Definition members_of (w : world) (rs : list nat) : option (list stairsQ) :=
+  match sequence (map (wget w) rs) with Some os => Some (map st os) | None => None end.
+
 Definition exec_query (w : world) (r : nat) (o : obj) (q : query) : world * obs :=
   let f := st o in
   let wv := wtouch w r with_values in
@@ -186,6 +194,20 @@ Definition exec_query (w : world) (r : nat) (o : obj) (q : query) : world * obs 
       (wv, match rolling_mean f l r lo hi with Ok rows => OSer rows | Err e => OErr e end)
   | QDescribe lo hi ps =>
       (wv, match describe f lo hi ps with Ok l => OVals l | Err e => OErr e end)
+  | QArrSample others xs =>
+      (w, match members_of w others with
+          | Some ms => OVals (concat (arr_sample (f :: ms) xs)) | None => OErr EOther end)
+  | QArrLimit others sd xs =>
+      (w, match members_of w others with
+          | Some ms => OVals (concat (arr_limit (f :: ms) sd xs)) | None => OErr EOther end)
+  | QArrCov others lo hi =>
+      (w, match members_of w others with
+          | Some ms => match arr_cov (f :: ms) lo hi with Ok M => OVals (concat M) | Err e => OErr e end
+          | None => OErr EOther end)
+  | QArrCorr others lo hi =>
+      (w, match members_of w others with
+          | Some ms => match arr_corr (f :: ms) lo hi with Ok M => OVals (concat M) | Err e => OErr e end
+          | None => OErr EOther end)
   | QAgg name lo hi cl =>
       if negb (bounds_ok lo hi) then (wv, OErr EValue) else      (* agg clips first: lower < upper required *)
       match name with
